@@ -1048,7 +1048,10 @@ def sym_int(x=0, base=None):
 
 def sym_str(x="", *a):
     if isinstance(x, SymInt):
-        return SymIntStr(x)
+        try:
+            return str(concretize_unique(x, "str"))      # a pinned value renders as the ordinary text
+        except Unsupported:
+            return SymIntStr(x)
     if (hasattr(x, "__symlen__") and hasattr(x, "chars")) or getattr(x, "_ostr", False):
         return x
     if isinstance(x, Rat):
